@@ -58,4 +58,5 @@ def shard(prop, tier, seed, shard, nshards):
             complete = complete and c
     acc.extra["enumerated_schedule_runs"] = runs
     acc.extra["enumeration_complete"] = complete
+    schedprops.run_long(check_case, acc, shard, nshards)
     return acc
